@@ -151,8 +151,16 @@ def bind_roles(prog: Program) -> tuple[str, str]:
         return out
 
     want = {"distribute_power", "create_task", "add_done_callback", "register"}
-    cands = [m for m in cls.methods if m not in ("_run", "__init__")
-             and want <= set().union(*(feats[x] for x in closure(m)))]
+
+    def score(m: str) -> int:
+        have = set().union(*(feats[x] for x in closure(m)))
+        return len(have & want) if "distribute_power" in have else 0
+
+    # the methods that show most of the role (all four features on a tree where the property holds; on a
+    # defective tree the role is still bound, so that the defect is reported as such), innermost first
+    pool = [m for m in cls.methods if m not in ("_run", "__init__") and score(m) > 0]
+    best = max((score(m) for m in pool), default=0)
+    cands = [m for m in pool if score(m) == best]
     inner = [m for m in cands if not any(o != m and o in closure(m) for o in cands)]
     if STARTER_HINT in cands:
         starter = STARTER_HINT
@@ -163,10 +171,13 @@ def bind_roles(prog: Program) -> tuple[str, str]:
                             "task, attach its done-callback and register it as in flight)")
     targets = {t for m in closure(starter) for cb, nested in cb_args.get(m, [])
                for t in [callback_target(cb, nested)] if t in cls.methods}
+    restart = {m for m in cls.methods if m not in ("_run", "__init__", starter) and starter in calls.get(m, ())}
     if len(targets) == 1:
         handler = next(iter(targets))
     elif HANDLER_HINT in cls.methods and (not targets or HANDLER_HINT in targets):
         handler = HANDLER_HINT
+    elif not targets and len(restart) == 1:
+        handler = next(iter(restart))       # no callback left: the one other method that starts requests
     else:
         raise AnalysisError(f"{ACTOR}: {len(targets)} methods play the role of {HANDLER_HINT} (the done-callback of the "
                             "distribution task)")
@@ -178,6 +189,7 @@ def bind_roles(prog: Program) -> tuple[str, str]:
 class Ctx:
     def __init__(self, prog: Program) -> None:
         self.unfollowed: set[str] = set()
+        self.read_in: set[str] = set()      # helpers spliced / followed into the anchored functions
         self.starter, self.handler = bind_roles(prog)
         self.anchors: tuple[str, ...] = ("_run", self.handler, self.starter)
 
@@ -185,6 +197,7 @@ class Ctx:
 def _walk(prog: Program, fn: FuncInfo, ctx: Ctx) -> Walk:
     w = Walk(prog, fn, anchors=ctx.anchors)
     ctx.unfollowed |= w.ex.unfollowed
+    ctx.read_in |= w.spliced | w.ex.followed
     return w
 
 
@@ -328,6 +341,7 @@ def check_run(run: Run, prog: Program, ctx: Ctx) -> None:  # noqa: C901
     except SymUnsupported as exc:
         raise AnalysisError(f"{fn.qual}: {exc}") from exc
     ctx.unfollowed |= w.ex.unfollowed
+    ctx.read_in |= w.ex.followed
     if not body:
         raise AnalysisError(f"{fn.qual}: the request loop has no path")
     K = f"frozenset({rv}.component_ids)"
@@ -575,6 +589,9 @@ def check_only(run: Run, prog: Program, ctx: Ctx) -> None:
                               "request loop and the completion handler", node=m.node, file=m.file)
     if n != 1 and not any(v.rule == "C14.ONLY" for v in run.violations):
         raise AnalysisError(f"C14.ONLY: expected one distribute_power call site, found {n}")
+    for name in sorted(ctx.read_in):      # module-level helpers read into the anchored functions
+        if name in cls.module.functions:
+            run.analysed(cls.module.functions[name].qual)
     # nobody else touches the two dictionaries
     for m in cls.methods.values():
         if m.name in ("__init__",) + ctx.anchors:
